@@ -10,7 +10,7 @@ use std::{
 
 use actix_service::Service;
 use actix_tls::connect::{
-    openssl as cossl, rustls_0_23 as crustls, ConnectError, ConnectInfo, Connection, Connector, Resolve, Resolver, ResolverService,
+    native_tls as cntls, openssl as cossl, rustls_0_20 as crustls20, rustls_0_21 as crustls21, rustls_0_22 as crustls22, rustls_0_23 as crustls, ConnectError, ConnectInfo, Connection, Connector, Resolve, Resolver, ResolverService,
     tcp::TcpConnector,
 };
 use futures_core::future::LocalBoxFuture;
@@ -48,6 +48,9 @@ pub struct Seen {
     pub tls_rejected: u64,
     pub tls_invalid_names: u64,
     pub tls_payload_bytes: u64,
+    /// per TLS connector adapter (index = Conn as usize)
+    pub tls_ok_by: [u64; 6],
+    pub tls_rejected_by: [u64; 6],
     pub later_live_untouched: u64,
     pub preset_with_literal_host: u64,
     pub ipv6_lists: u64,
@@ -475,8 +478,52 @@ enum ServerCert {
 
 #[derive(Clone, Copy, Debug, PartialEq, Eq)]
 pub enum Conn {
+    /// rustls 0.23
     Rustls,
     OpenSsl,
+    Rustls20,
+    Rustls21,
+    Rustls22,
+    NativeTls,
+}
+
+impl Conn {
+    fn tag(self) -> &'static str {
+        match self {
+            Conn::Rustls => "rustls",
+            Conn::OpenSsl => "openssl",
+            Conn::Rustls20 => "rustls_0_20",
+            Conn::Rustls21 => "rustls_0_21",
+            Conn::Rustls22 => "rustls_0_22",
+            Conn::NativeTls => "native_tls",
+        }
+    }
+}
+
+fn rustls20_client_config(pki: &Pki) -> Arc<tokio_rustls_023::rustls::ClientConfig> {
+    use tokio_rustls_023::rustls as r;
+    let mut roots = r::RootCertStore::empty();
+    roots.add(&r::Certificate(pki.ca_der.clone())).unwrap();
+    Arc::new(r::ClientConfig::builder().with_safe_defaults().with_root_certificates(roots).with_no_client_auth())
+}
+
+fn rustls21_client_config(pki: &Pki) -> Arc<tokio_rustls_024::rustls::ClientConfig> {
+    use tokio_rustls_024::rustls as r;
+    let mut roots = r::RootCertStore::empty();
+    roots.add(&r::Certificate(pki.ca_der.clone())).unwrap();
+    Arc::new(r::ClientConfig::builder().with_safe_defaults().with_root_certificates(roots).with_no_client_auth())
+}
+
+fn rustls22_client_config(pki: &Pki) -> Arc<tokio_rustls_025::rustls::ClientConfig> {
+    use tokio_rustls_025::rustls as r;
+    let mut roots = r::RootCertStore::empty();
+    roots.add(r::pki_types::CertificateDer::from(pki.ca_der.clone())).unwrap();
+    Arc::new(r::ClientConfig::builder().with_root_certificates(roots).with_no_client_auth())
+}
+
+fn native_tls_client(pki: &Pki) -> tokio_native_tls::native_tls::TlsConnector {
+    use tokio_native_tls::native_tls as n;
+    n::TlsConnector::builder().add_root_certificate(n::Certificate::from_pem(pki.ca_pem.as_bytes()).unwrap()).build().unwrap()
 }
 
 fn names() -> Vec<(String, bool)> {
@@ -531,38 +578,39 @@ async fn tls_case(conn: Conn, cert: ServerCert, name: &str, valid_syntax: bool, 
     let covers = match cert {
         ServerCert::Good => name.eq_ignore_ascii_case("good.test") || name.eq_ignore_ascii_case("good.test."),
         ServerCert::Other => name.eq_ignore_ascii_case("other.test"),
-        ServerCert::IpGood => name.eq_ignore_ascii_case("good.test") || name.eq_ignore_ascii_case("good.test.") || name == "127.0.0.1",
+        // the rustls-0.20 adapter documents that it "can only handle hostname-based connections" (its webpki has no
+        // iPAddress support): an IP name is an error there
+        ServerCert::IpGood => name.eq_ignore_ascii_case("good.test") || name.eq_ignore_ascii_case("good.test.") || (name == "127.0.0.1" && conn != Conn::Rustls20),
         // right name, but self-signed / issued by a CA the client does not trust
         ServerCert::SelfSigned | ServerCert::Untrusted => false,
     };
     let trailing_dot = name.ends_with('.');
     let rustls_cfg = rustls_client_config(&pki);
     let ossl = openssl_client(&pki);
+    let (cfg20, cfg21, cfg22, ntls) = (rustls20_client_config(&pki), rustls21_client_config(&pki), rustls22_client_config(&pki), native_tls_client(&pki));
+    macro_rules! drive {
+        ($svc:expr) => {{
+            let svc = $svc;
+            match svc.call(connection).await {
+                Ok(c) => {
+                    let (mut io, _) = c.into_parts();
+                    echo_check(&mut io, seed).await
+                }
+                Err(e) => Err(e.to_string()),
+            }
+        }};
+    }
     let name_owned = name.to_string();
-    let seed2 = seed;
+
     // call + await run inside a local task so that a panic anywhere in them is observed, not propagated
     let task = tokio::task::spawn_local(async move {
         match conn {
-            Conn::Rustls => {
-                let svc = crustls::TlsConnector::service(rustls_cfg);
-                match svc.call(connection).await {
-                    Ok(c) => {
-                        let (mut io, _) = c.into_parts();
-                        echo_check(&mut io, seed2).await
-                    }
-                    Err(e) => Err(e.to_string()),
-                }
-            }
-            Conn::OpenSsl => {
-                let svc = cossl::TlsConnector::service(ossl);
-                match svc.call(connection).await {
-                    Ok(c) => {
-                        let (mut io, _) = c.into_parts();
-                        echo_check(&mut io, seed2).await
-                    }
-                    Err(e) => Err(e.to_string()),
-                }
-            }
+            Conn::Rustls => drive!(crustls::TlsConnector::service(rustls_cfg)),
+            Conn::OpenSsl => drive!(cossl::TlsConnector::service(ossl)),
+            Conn::Rustls20 => drive!(crustls20::TlsConnector::service(cfg20)),
+            Conn::Rustls21 => drive!(crustls21::TlsConnector::service(cfg21)),
+            Conn::Rustls22 => drive!(crustls22::TlsConnector::service(cfg22)),
+            Conn::NativeTls => drive!(cntls::TlsConnector::new(ntls)),
         }
     });
     let fut = async move {
@@ -584,7 +632,7 @@ async fn tls_case(conn: Conn, cert: ServerCert, name: &str, valid_syntax: bool, 
         Ok(Err(panic_msg)) => {
             seen.tls_invalid_names += 1;
             return fail(
-                &format!("C19:tls-connector-panics:{}", if conn == Conn::OpenSsl { "openssl" } else { "rustls" }),
+                &format!("C19:tls-connector-panics:{}", conn.tag()),
                 format!("{what}: the connector panicked instead of returning an error: {panic_msg}"),
             );
         }
@@ -595,11 +643,13 @@ async fn tls_case(conn: Conn, cert: ServerCert, name: &str, valid_syntax: bool, 
     match (expect_ok, res) {
         (true, Ok(n)) => {
             seen.tls_ok += 1;
+            seen.tls_ok_by[conn as usize] += 1;
             seen.tls_payload_bytes += n as u64;
             Ok(())
         }
         (false, Err(_)) => {
             seen.tls_rejected += 1;
+            seen.tls_rejected_by[conn as usize] += 1;
             if !valid_syntax {
                 seen.tls_invalid_names += 1;
             }
@@ -702,7 +752,11 @@ pub fn run(args: &Args, rep: &mut Report) {
             // ---- TLS connectors over the in-memory duplex
             let reps = if thorough { 60 } else { 2 };
             for rep_no in 0..reps {
-                for conn in [Conn::Rustls, Conn::OpenSsl] {
+                for conn in [Conn::Rustls, Conn::OpenSsl, Conn::Rustls20, Conn::Rustls21, Conn::Rustls22, Conn::NativeTls] {
+                    // the four structurally parallel adapters: a quarter of the repetitions in the thorough tier
+                    if !matches!(conn, Conn::Rustls | Conn::OpenSsl) && thorough && rep_no >= 15 {
+                        continue;
+                    }
                     for cert in [ServerCert::Good, ServerCert::Other, ServerCert::SelfSigned, ServerCert::Untrusted, ServerCert::IpGood] {
                         for (name, valid) in names() {
                             case_no += 1;
@@ -743,7 +797,7 @@ pub fn run(args: &Args, rep: &mut Report) {
     rep.exhaustive = true;
     rep.rule = "TCP part: every address list of length 0..4 (0..5 thorough) over {live loopback listener, live IPv6 loopback listener (at most one per list), closed port (refused), broadcast address (network unreachable, when the sandbox reports it immediately)} x {addresses pre-set on the request (set_addrs / with_addr), custom resolver answering with the list, custom resolver failing, IPv4-literal host} x {no local address, local_addr 127.0.0.1, local_addr ::1 (IPv4 entries then fail with an address-family error and the fallback must go on)} through the real ConnectorService, obtained from Connector::service or from its ServiceFactory; \
                 oracle: resolver call log (never consulted for pre-resolved requests and IP literals, exactly once with (host, port) otherwise), error variant (NoRecords, Resolver, Unresolved, Io), peer address = first live address in order, accept counters of all live listeners (exactly one attempt on the chosen one, none on later ones), local address honoured, and with both dead kinds present the returned I/O error kind is the last attempt's; plus ResolverService / TcpConnectorService unit cases. \
-                TLS part: rustls-0.23 and OpenSSL connector services over an in-memory duplex against a rustls server presenting {leaf for good.test from the trusted CA, leaf for other.test, self-signed, leaf from an untrusted CA} and {trusted leaf with DNS name good.test and iPAddress 127.0.0.1} x requested names {good.test, other.test, GOOD.test, empty, 300 chars, 'a b', embedded NUL, 127.0.0.1, good.test., -x.test}: success iff the chain is trusted and the certificate covers a syntactically valid name (then a random payload is echoed and compared), otherwise an error is returned; a panic out of call/poll is a violation. Enumerated completely (exhaustive over the stated lists); distinct = distinct case label."
+                TLS part: rustls-0.23, OpenSSL, rustls-0.20 / 0.21 / 0.22 and native-tls connector services over an in-memory duplex against a rustls server presenting {leaf for good.test from the trusted CA, leaf for other.test, self-signed, leaf from an untrusted CA} and {trusted leaf with DNS name good.test and iPAddress 127.0.0.1} x requested names {good.test, other.test, GOOD.test, empty, 300 chars, 'a b', embedded NUL, 127.0.0.1, good.test., -x.test}: success iff the chain is trusted and the certificate covers a syntactically valid name (then a random payload is echoed and compared), otherwise an error is returned; a panic out of call/poll is a violation. Enumerated completely (exhaustive over the stated lists); distinct = distinct case label."
         .into();
     rep.add("obs_connects_ok", seen.connects_ok);
     rep.add("obs_fallbacks_past_dead_addresses", seen.fallbacks);
@@ -765,4 +819,8 @@ pub fn run(args: &Args, rep: &mut Report) {
     rep.add("obs_tls_rejected", seen.tls_rejected);
     rep.add("obs_tls_invalid_names", seen.tls_invalid_names);
     rep.add("obs_tls_payload_bytes", seen.tls_payload_bytes);
+    for c in [Conn::Rustls20, Conn::Rustls21, Conn::Rustls22, Conn::NativeTls] {
+        rep.add(&format!("obs_tls_handshakes_ok_{}", c.tag()), seen.tls_ok_by[c as usize]);
+        rep.add(&format!("obs_tls_rejected_{}", c.tag()), seen.tls_rejected_by[c as usize]);
+    }
 }
